@@ -1024,6 +1024,7 @@ func (fr *Frame) execInstr(ins ssa.Instruction) {
 			return
 		}
 		p := vc.newAlloc(fr.st, false)
+		vc.markFresh(et)
 		// memory is zero-initialised
 		vc.storeAt(fr.st, p, et, vc.zeroOf(et))
 		fr.vals[t] = Val{T: p}
@@ -1080,7 +1081,11 @@ func (fr *Frame) execInstr(ins ssa.Instruction) {
 	case *ssa.MakeMap:
 		p := vc.newAlloc(fr.st, false)
 		mt := t.Type().Underlying().(*types.Map)
-		has, _, ln, ks, _ := vc.mapHeaps(mt)
+		has, val, ln, ks, _ := vc.mapHeaps(mt)
+		if vc.freshHeaps == nil {
+			vc.freshHeaps = map[string]bool{}
+		}
+		vc.freshHeaps[has], vc.freshHeaps[val], vc.freshHeaps[ln] = true, true, true
 		vc.heapWrite(fr.st, has, p, Term{fmt.Sprintf("((as const (Array %s Bool)) false)", ks), arraySort(ks, SBool)})
 		vc.heapWrite(fr.st, ln, p, bvLit(0, 64))
 		fr.vals[t] = Val{T: p}
@@ -1550,6 +1555,7 @@ func (fr *Frame) slice(t *ssa.Slice) {
 			unsup("partial slice of array")
 		}
 		p := vc.newAlloc(fr.st, true)
+		vc.markFresh(arr.Elem())
 		for k := int64(0); k < n; k++ {
 			vc.storeAt(fr.st, elemPtr(p, bvLit(uint64(k), 64)), arr.Elem(), si.get(av, int(k)))
 		}
@@ -1568,6 +1574,7 @@ func (fr *Frame) makeSlice(t *ssa.MakeSlice) {
 	// makeslice panics for negative or len > cap
 	fr.check("makeslice", t.Name(), and(app(SBool, "bvule", l, c), app(SBool, "bvule", c, Term{"#x0000010000000000", bvSort(64)})), t.Pos())
 	p := vc.newAlloc(fr.st, true)
+	vc.markFresh(t.Type().Underlying().(*types.Slice).Elem())
 	fr.vals[t] = Val{T: vc.name(t.Name(), mkSlice(p, l, c))}
 }
 
@@ -1578,6 +1585,11 @@ func (fr *Frame) mapUpdate(t *ssa.MapUpdate) {
 	fr.check("nilmap", t.Map.Name(), not(isNil(m)), t.Pos())
 	has, val, ln, ks, vs := vc.mapHeaps(mt)
 	k, v := fr.term(t.Key), fr.term(t.Value)
+	if fr.val(t.Map).Ghost {
+		valArr := vc.heapRead(fr.st, val, m)
+		vc.heapWrite(fr.st, val, m, store(Term{valArr.S, arraySort(ks, vs)}, k, v))
+		return
+	}
 	hasArr := vc.heapRead(fr.st, has, m)
 	valArr := vc.heapRead(fr.st, val, m)
 	was := sel(hasArr, k, SBool)
